@@ -609,9 +609,8 @@ func openCase(line string, work string) error {
 		ic.SegmentVersion = 2
 		// ice v2: a reader loading stored fields races with a merge of the same segment (known finding of C01):
 		// no merges in these cases
-		ic.MinSegmentsForInMemoryMerge = 1 << 30
-		ic.MergePlanOptions.MaxSegmentsPerTier = 1 << 20
-		ic.MergePlanOptions.FloorSegmentSize = 1 << 40
+		ic.MinSegmentsForInMemoryMerge = 1 << 30 // no in-memory merge by the persister
+		ic.MergePlanOptions.MaxSegmentSize = 1    // no segment is "small enough" to be eligible for a file merge
 	} else {
 		ic.SegmentVersion = 1
 		ic.MergePlanOptions.FloorSegmentSize = 1
